@@ -520,7 +520,7 @@ import os
 ORACLE_ARGS = ["asis"] if os.environ.get("VERIF_C19_ASIS") else []
 
 def streams(tier):
-    n = 400 if tier == "quick" else 12000
+    n = 400 if tier == "quick" else 6000
     return [(core.Stream("auth-broker", "authbroker", gen, predicate, nontrivial, canon=canon, keep_prefix=1, hint=hint,
                          oracle_args=ORACLE_ARGS), n)]
 
